@@ -273,6 +273,23 @@ MCProgTokens == <<%s>>
 	for _, i := range c.SampleIdx(len(rest), c.Pick(2500, 60000)) {
 		checkItems = append(checkItems, rest[i])
 	}
+	// and a seeded sample of texts WITH syntax errors through the same entry point
+	var bad []*item
+	okSet := map[*item]bool{}
+	for _, it := range parseOK {
+		okSet[it] = true
+	}
+	for _, it := range srcItems {
+		if !okSet[it] {
+			bad = append(bad, it)
+		}
+	}
+	nBad := 0
+	for _, i := range c.SampleIdx(len(bad), c.Pick(800, 20000)) {
+		checkItems = append(checkItems, bad[i])
+		nBad++
+	}
+	c.Cov("checker_entry_runs_on_texts_with_syntax_errors", nBad)
 	t1 = time.Now()
 	if _, err := replay(c, pool, "check", checkItems, nil, 25, 15000, classes, groups); err != nil {
 		return err
